@@ -128,6 +128,7 @@ pub struct AccessRec {
 pub struct Inner {
     pub active: bool,
     pub n: usize,
+    pub fp_trace: bool,
     pub st: [St; MAXT],
     pub stalled: [bool; MAXT],
     pub token: [bool; MAXT],
@@ -177,6 +178,7 @@ impl Inner {
         Inner {
             active: false,
             n: 0,
+            fp_trace: std::env::var("VERIF_FPTRACE").is_ok(),
             st: [St::Idle; MAXT],
             stalled: [false; MAXT],
             token: [false; MAXT],
@@ -258,6 +260,15 @@ impl Inner {
             }
         }
         self.fp.add(clock ^ ((me as u64) << 48) ^ ((site as u64) << 56));
+        if self.fp_trace {
+            eprintln!("FP {} d clock={} me={} site={}", crate::CUR_INDEX.load(Ordering::Relaxed), clock, me, site);
+            if let Ok(w) = std::env::var("VERIF_BTCLOCK") {
+                let mut it = w.split(':');
+                if it.next().and_then(|x| x.parse::<u64>().ok()) == Some(crate::CUR_INDEX.load(Ordering::Relaxed)) && it.next().and_then(|x| x.parse::<u64>().ok()) == Some(clock) {
+                    eprintln!("BT at clock {}:\n{}", clock, std::backtrace::Backtrace::force_capture());
+                }
+            }
+        }
 
         // end of the adversarial phase: faults stop, scheduling becomes fair
         if !self.fair_mode && clock > self.budget {
@@ -617,6 +628,11 @@ pub fn init() {
     };
     let _ = SCHED.set(s);
     let _ = PARKERS[CTRL].thread.set(std::thread::current());
+    // seize numbers threads in the order of their first use of any collector, and a collector
+    // that is dropped frees its per-thread leftovers in that order: fix the numbering here
+    // (controller first, then the pool threads in index order) instead of leaving it to whichever
+    // run happens to come first in this process
+    touch_seize();
     for i in 0..MAXT {
         let (tx, rx) = std::sync::mpsc::channel();
         std::thread::Builder::new()
@@ -624,6 +640,7 @@ pub fn init() {
             .stack_size(8 << 20)
             .spawn(move || {
                 let _ = PARKERS[i].thread.set(std::thread::current());
+                touch_seize();
                 SIM_ID.with(|c| c.set(i));
                 tx.send(()).unwrap();
                 pool_main(i);
@@ -634,6 +651,11 @@ pub fn init() {
         rx.recv().unwrap();
     }
     flurry::verif::install(&HOOKS);
+}
+
+fn touch_seize() {
+    let c = seize::Collector::new();
+    drop(c.enter());
 }
 
 fn pool_main(i: usize) {
@@ -969,6 +991,9 @@ impl Hooks for SimHooks {
                     // `b` of these two is a table address: never part of a fingerprint
                     let bb = if matches!(ev, Ev::ResizeStarted | Ev::Published) { 0 } else { b as u64 & 0xff };
                     g.fp.add(0xE000_0000_0000_0000 | ((ev as u64) << 32) | (a as u64 & 0xffff) << 8 | bb);
+                    if g.fp_trace {
+                        eprintln!("FP {} e clock={} me={} ev={:?} a={} bb={}", crate::CUR_INDEX.load(Ordering::Relaxed), clock, me, ev, a & 0xffff, bb);
+                    }
                 }
             }
         }
